@@ -83,17 +83,42 @@ def is_year_start(E, P, ctx, t):
     return [(P, Bool(z3.And(f["CD"](n) == 1, f["CM"](n) == 1, E.dt_tod(_u(t)) == 0)))]
 
 
+LO_US = -25567 * DAY_US        # 1900-01-01T00:00
+HI_US = 84371 * DAY_US         # 2201-01-01T00:00
+
+
 def in_range_years(E, P, ctx, t):
-    """the quantifier of C14-C18: years 1900 .. 2200 (well inside datetime's 1..9999)"""
-    n = E.dt_dn(_u(t))
-    E.dt_civil_facts(P, n)
-    y = E.dt_funcs["CY"](n)
-    return [(P, Bool(z3.And(y >= 1900, y <= 2200)))]
+    """the quantifier of C14-C18: years 1900 .. 2200 (well inside datetime's 1..9999), stated on the instant itself:
+    1900-01-01 <= t < 2201-01-01.  That these instants have a civil year in 1900..2200 is one more calendar fact
+    (A-DT; the two day numbers and the monotonicity of the year are checked by selftest/conformance.py); it is
+    instantiated here, outside binders."""
+    return _in_range(E, P, t, True)
+
+
+def in_range_us(E, P, ctx, t):
+    """the same condition, without instantiating the calendar facts of t's date and its neighbours (for callers that do
+    only fixed-length arithmetic on t: the enumeration loops)"""
+    return _in_range(E, P, t, False)
+
+
+def _in_range(E, P, t, civil):
+    u = _u(t)
+    n = E.dt_dn(u)
+    inside = z3.And(u >= LO_US, u < HI_US)
+    if not getattr(E, "quant_depth", 0):
+        if civil:
+            E.dt_civil_facts(P, n)
+        y = E.dt_funcs["CY"](n)
+        P.assume(z3.Implies(inside, z3.And(y >= 1900, y <= 2200)))
+        P.assume(z3.Implies(z3.And(y >= 1900, y <= 2200, E.dt_valid(y, E.dt_funcs["CM"](n), E.dt_funcs["CD"](n)),
+                                   E.dt_funcs["DAYS"](y, E.dt_funcs["CM"](n), E.dt_funcs["CD"](n)) == n), inside))
+        E.assume_used("A-DT")
+    return [(P, Bool(inside))]
 
 
 SPECFUNS = {"month_start": month_start, "month_len": month_len, "year_start": year_start, "year_len": year_len,
             "month_index": month_index, "civil_year": civil_year, "is_month_start": is_month_start,
-            "is_year_start": is_year_start, "in_range_years": in_range_years}
+            "is_year_start": is_year_start, "in_range_years": in_range_years, "in_range_us": in_range_us}
 
 
 def interval_setup(unit):
@@ -176,6 +201,14 @@ CONTRACTS["d3_time.d3_time_month_offset"] = {
 }
 
 
+def _ceil_summary(unit):
+    """inside range() the call self.ceil(t0) is summarised by the contract VERIFIED as ceil@<unit> (same clauses)"""
+    L, PH = FIXED[unit]
+    return {"d3_time.d3_time_interval.ceil": {
+        "requires": [("in_range", "in_range_us(date)")], "modifies": [], "returns": "dt",
+        "ensures": ["us(result) %% %d == %d" % (L, PH), "us(result) - %d < us(date) <= us(result)" % L]}}
+
+
 # ---- range(t0, t1, dt): the two loops -------------------------------------------------------------------------------------
 _NUMBER = {"second": "(us(%s) // 1000000) %% 60", "minute": "(us(%s) // 60000000) %% 60", "hour": "(us(%s) %% 86400000000) // 3600000000"}
 for _unit in ("second", "minute", "hour", "day", "week"):
@@ -183,7 +216,7 @@ for _unit in ("second", "minute", "hour", "day", "week"):
     B_time = "us(time) %% %d == %d" % (L, PH)
     CONTRACTS["d3_time.d3_time_interval.range@%s_step1" % _unit] = dict(
         props=["C17", "C16", "C18"], inline=True, setup=interval_setup(_unit), func_alias="d3_time.d3_time_interval.range", heap=True,
-        params={"t0": "dt_ms", "t1": "dt", "dt": "int"}, requires=["in_range_years(t0)", "in_range_years(t1)", "dt == 1"],
+        params={"t0": "dt_ms", "t1": "dt", "dt": "int"}, requires=["in_range_us(t0)", "in_range_us(t1)", "dt == 1"], callee_contracts=_ceil_summary(_unit),
         slist_locals={"times": "slist:dt"}, modifies=["list.len.dt", "list.elems.dt"], allocates=["list"],
         loops={1: {"modifies": ["list.len.dt", "list.elems.dt"], "locals": {"time": "dt"},
                    "inv": [("list", "times is not None and len(times) >= 0"),
@@ -199,7 +232,8 @@ for _unit in ("second", "minute", "hour", "day", "week"):
         num = _NUMBER[_unit]
         CONTRACTS["d3_time.d3_time_interval.range@%s_skip" % _unit] = dict(
             props=["C17", "C16", "C18"], inline=True, setup=interval_setup(_unit), func_alias="d3_time.d3_time_interval.range", heap=True,
-            params={"t0": "dt_ms", "t1": "dt", "dt": "int"}, requires=["in_range_years(t0)", "in_range_years(t1)", "2 <= dt <= 12"],
+            params={"t0": "dt_ms", "t1": "dt", "dt": "int"}, requires=["in_range_us(t0)", "in_range_us(t1)", "2 <= dt <= 12"], callee_contracts=_ceil_summary(_unit),
+        slice_first=True,
             slist_locals={"times": "slist:dt"}, modifies=["list.len.dt", "list.elems.dt"], allocates=["list"],
             loops={0: {"modifies": ["list.len.dt", "list.elems.dt"], "locals": {"time": "dt"},
                        "inv": [("list", "times is not None and len(times) >= 0"),
@@ -210,3 +244,94 @@ for _unit in ("second", "minute", "hour", "day", "week"):
             ensures=[("listed_are_qualifying_boundaries_in_range",
                       "forall(lambda k: implies(0 <= k < len(result), us(result[k]) %% %d == %d and us(t0) <= us(result[k]) < us(t1) and (%s) %% dt == 0))"
                       % (L, PH, num % "result[k]"))])
+
+
+# ---- unit numbers used by the stepped range (C17: "filtered to those whose unit number is divisible by the step") ----------
+def weekno(E, P, ctx, t):
+    """Sunday-based week number inside the year, as d3 defines it: floor((day-of-year + weekday of 1 January) / 7) - 1 with
+    day-of-year counted from 0 and Sunday = 0.  An uninterpreted function of the instant whose defining equation is
+    instantiated at ground instants (inside a quantifier over list elements it stays an opaque term, which is all the
+    enumeration loop needs: the filter's own test is the same term)."""
+    u = _u(t)
+    f = E.uf.get("WEEKNO")
+    if f is None:
+        f = E.uf["WEEKNO"] = z3.Function("WEEKNO", IntS, IntS)
+    n = E.dt_dn(u)
+    E.dt_civil_facts(P, n)
+    fs = E.dt_funcs
+    y = fs["CY"](n)
+    E.dt_days_facts(P, y, z3.IntVal(1), z3.IntVal(1))
+    jan1 = fs["DAYS"](y, z3.IntVal(1), z3.IntVal(1))
+    if not getattr(E, "quant_depth", 0):
+        P.assume(f(u) == ((n - jan1) + (jan1 + 4) % 7) / 7 - 1)
+    return [(P, Num(f(u), True))]
+
+
+def dayofyear(E, P, ctx, t):
+    """0-based day of the year of the civil date of t"""
+    n = E.dt_dn(_u(t))
+    E.dt_civil_facts(P, n)
+    fs = E.dt_funcs
+    y = fs["CY"](n)
+    E.dt_days_facts(P, y, z3.IntVal(1), z3.IntVal(1))
+    return [(P, Num(n - fs["DAYS"](y, z3.IntVal(1), z3.IntVal(1)), True))]
+
+
+SPECFUNS.update({"weekno": weekno, "dayofyear": dayofyear})
+
+CONTRACTS["d3_time.day_of_year"] = {
+    "props": ["C17"], "params": {"date": "dt"}, "requires": ["in_range_us(date)"], "modifies": [], "returns": "int",
+    "ensures": [("days_since_1_january", "result == dayofyear(date)"), ("range", "0 <= result <= 365")],
+}
+CONTRACTS["d3_time.d3_time_week_number"] = {
+    "props": ["C17"], "params": {"date": "dt"}, "requires": ["in_range_us(date)"], "modifies": [], "returns": "int",
+    "ensures": [("sunday_based_week_of_year", "result == weekno(date)")],
+}
+
+
+def civil_day(E, P, ctx, t):
+    n = E.dt_dn(_u(t))
+    E.dt_civil_facts(P, n)
+    return [(P, Num(E.dt_funcs["CD"](n), True))]
+
+
+def civil_month(E, P, ctx, t):
+    n = E.dt_dn(_u(t))
+    E.dt_civil_facts(P, n)
+    return [(P, Num(E.dt_funcs["CM"](n), True))]
+
+
+def lemma_year_monotone(E, P, ctx, a, b):
+    """LEMMA CALL (always true): the civil year is monotone in the instant - an instance of a calendar fact that the
+    on-demand axioms do not give (they are local to a date and its neighbours).  Checked against the interpreter for every
+    pair of consecutive days of years 1..9999 by selftest/conformance.py (assumption A-DT)."""
+    na, nb = E.dt_dn(_u(a)), E.dt_dn(_u(b))
+    E.dt_civil_facts(P, na)
+    E.dt_civil_facts(P, nb)
+    cy = E.dt_funcs["CY"]
+    P.assume(z3.Implies(na <= nb, cy(na) <= cy(nb)))
+    P.assume(z3.Implies(nb <= na, cy(nb) <= cy(na)))
+    E.assume_used("A-DT")
+    return [(P, Bool(z3.BoolVal(True)))]
+
+
+SPECFUNS.update({"civil_day": civil_day, "civil_month": civil_month, "lemma_year_monotone": lemma_year_monotone})
+
+# stepped enumeration of days (number = day of the month - 1) and of weeks (number = weekno): same loop, same clauses
+_NUMBER2 = {"day": "civil_day(%s) - 1", "week": "weekno(%s)"}
+for _unit, num in _NUMBER2.items():
+    L, PH = FIXED[_unit]
+    B_time = "us(time) %% %d == %d" % (L, PH)
+    CONTRACTS["d3_time.d3_time_interval.range@%s_skip" % _unit] = dict(
+        props=["C17", "C16", "C18"], inline=True, setup=interval_setup(_unit), func_alias="d3_time.d3_time_interval.range", heap=True,
+        params={"t0": "dt_ms", "t1": "dt", "dt": "int"}, requires=["in_range_us(t0)", "in_range_us(t1)", "2 <= dt <= 12"], callee_contracts=_ceil_summary(_unit),
+        slice_first=True,
+        slist_locals={"times": "slist:dt"}, modifies=["list.len.dt", "list.elems.dt"], allocates=["list"],
+        loops={0: {"modifies": ["list.len.dt", "list.elems.dt"], "locals": {"time": "dt"},
+                   "inv": [("list", "times is not None and len(times) >= 0"),
+                           ("boundary", B_time + " and us(time) >= us(time__0)"),
+                           ("elements", "forall(lambda k: implies(0 <= k < len(times), us(times[k]) %% %d == %d and us(time__0) <= us(times[k]) < us(time) "
+                                        "and us(times[k]) < us(t1) and (%s) %% dt == 0))" % (L, PH, num % "times[k]"))]}},
+        ensures=[("listed_are_qualifying_boundaries_in_range",
+                  "forall(lambda k: implies(0 <= k < len(result), us(result[k]) %% %d == %d and us(t0) <= us(result[k]) < us(t1) and (%s) %% dt == 0))"
+                  % (L, PH, num % "result[k]"))])
